@@ -67,12 +67,25 @@ enum e1 { AA, BB = 5 }; typedef int (*fn_t)(int, char *); typedef foo_t arr_t[3]
 '''
 
 
+# characters that cannot be encoded (lone surrogates) or need 3-4 bytes of UTF-8
+_ODD_CHARS = ['\ud800', '\udc80', '\udfff', '\udbff', '\uffff', '\U0001f600', '\U0010ffff', '\u20ac', '\xa0']
+
+# aggregate and enum *definitions* inside a type string: their errors surface when typeof() builds the type
+_INLINE_AGGS = ['struct { int a; char b; }', 'struct { int a; int a; }', 'union { int x; float x; }',
+                'struct { int a; struct { int a; }; }', 'struct { int a, a; }', 'enum { X, X }', 'enum { A = -1, B }',
+                'struct { void v; }', 'struct { int a[]; int b; }', 'struct { int a:40; }', 'struct { float f:3; }',
+                'struct { struct s2 o; }', 'struct { int a:0; }', 'struct { int :0; }', 'struct { char c:9; }',
+                'struct { _Bool b:2; }', 'struct { int a:-1; }', 'struct { int x[-1]; }', 'struct { enum e1 z:40; }',
+                'struct { }', 'union { }', 'struct { int *p:3; }', 'struct { s1_t a; s1_t a; }',
+                'struct { int a; union { char c; short a; }; }', 'struct s9 { struct s9 *next; int v, v; }']
+
+
 def _type_strings():
     base = st.sampled_from(['int', 'char', 'unsigned int', 'long long', 'short', 'unsigned char', 'float',
                             'double', 'void', 'foo_t', 's1_t', 'struct s1', 'struct s2', 'union u1',
                             'enum e1', 'fn_t', 'arr_t', 'size_t', 'uint16_t', '_Bool', 'wchar_t',
                             'long double', 'signed char', 'unsigned', 'long unsigned int', 'const int',
-                            'int const', 'volatile char', 'FILE'])
+                            'int const', 'volatile char', 'FILE'] + _INLINE_AGGS)
     suffix = st.lists(st.sampled_from(['*', '**', ' *const', '[3]', '[]', '[TEN]', '[0x10]', '[010]',
                                        '(*)(int)', '(*)(void)', '(*)(int, ...)', '(*)[4]', '(*)()',
                                        '(*)(struct s1 *, foo_t)', '(__stdcall *)(int)', ' x', '(x)',
@@ -111,7 +124,8 @@ def _mutate(draw, text):
             text = text[:j] + text[j + 1:]
         elif kind == 6:    # insert arbitrary char
             j = draw(st.integers(0, len(text)))
-            text = text[:j] + draw(st.characters(min_codepoint=0, max_codepoint=0x2FF)) + text[j:]
+            text = text[:j] + draw(st.one_of(st.characters(min_codepoint=0, max_codepoint=0x2FF),
+                                             st.sampled_from(_ODD_CHARS))) + text[j:]
         else:              # truncate
             j = draw(st.integers(0, len(text)))
             text = text[:j]
@@ -185,7 +199,8 @@ def strategy(ctx):
             text = ' '.join(draw(st.lists(st.sampled_from(FRAG_WORDS), min_size=0, max_size=12)))
             return {'entry': draw(st.sampled_from(['cdef', 'typeof'])), 'text': text[:MAXLEN],
                     'mutated_from_valid': False}
-        text = draw(st.text(max_size=40))
+        text = draw(st.text(st.one_of(st.characters(codec='utf-8'), st.characters(codec='utf-8'),
+                                      st.sampled_from(_ODD_CHARS + list('int*[]() '))), max_size=40))
         return {'entry': draw(st.sampled_from(['cdef', 'typeof'])), 'text': text,
                 'mutated_from_valid': False}
     return case()
@@ -234,6 +249,14 @@ def run_inline(entry, text):
     try:
         if entry == 'cdef':
             ffi.cdef(text)
+            # what the text declared is then looked at through typeof(): the errors of a declaration
+            # that only show when its type is built belong to the same property
+            for key in sorted(ffi._parser._declarations):
+                kind, _, name = key.partition(' ')
+                if kind == 'typedef':
+                    ffi.typeof(name)
+                elif kind in ('struct', 'union') and not name.startswith('$'):
+                    ffi.typeof(kind + ' ' + name)
         else:
             ffi.cdef(CONTEXT_CDEF)
             ffi.typeof(text)
